@@ -162,6 +162,35 @@ def plant(candles, name=None):
 
 
 # ------------------------------------------------------------------------------------------------ 1-4 per class
+def check_derived_index(col, key, seed):
+    """a member on a derived timeframe: Hexital.calculate_index with the default / a negative index addresses the member's OWN
+    candle list (of another length than the base list), reproduces the reading and raises nothing"""
+    n = 47
+    candles = stream("random", n, seed=seed + 9)
+    text = f"oracles.c14.stream('random',{n},seed={seed + 9})"
+    for tf in ("T5", "T10"):
+        ind = build(key, timeframe=tf)
+        hexi = Hexital("c14", gen.clone(candles), [ind])
+        _, exc = call(hexi.calculate)
+        if exc is not None:
+            return
+        want = list(ind.as_list())
+        name = ind.name
+        for shown, fn in ((f"Hexital.calculate_index()  # every member, default index -1", lambda: hexi.calculate_index()),
+                          (f"Hexital.calculate_index({name!r}, -2)", lambda: hexi.calculate_index(name, -2)),
+                          (f"Hexital.calculate_index(index={len(want) - 1})", lambda: hexi.calculate_index(index=len(want) - 1))):
+            col.tick()
+            _, exc = call(fn)
+            got = list(ind.as_list())
+            inp = {"indicator": key, "timeframe": tf, "stream": text, "op": shown, "base_candles": n, "member_candles": len(want)}
+            if exc is not None:
+                col.fail("calc-index-negative", "derived-timeframe/raises", "hexital.core.hexital.Hexital.calculate_index",
+                         f"{key}@{tf}: {shown} raised {type(exc).__name__}: {exc} (member list has {len(want)} candles, base list {n})", inp, tag=key)
+            elif got != want:
+                col.fail("calc-index-negative", "derived-timeframe/readings-changed", "hexital.core.hexital.Hexital.calculate_index",
+                         f"{key}@{tf}: {shown} changed readings: {first_diff(want, got)}", inp, tag=key)
+
+
 def check_class(col, key, candles, stream_text):
     n = len(candles)
     spec = {"indicator": key, "kwargs": {k: getattr(v, "__name__", v) for k, v in small_config(INDICATOR_MAP[key]).items()},
@@ -549,6 +578,8 @@ def run(tier, seed, focus=None):
             col.scenario(("class", key, kind))
     col.note(f"per class ({len(usable)}/{len(keys)} computable): calculate twice, recalculate, purge x3 routes with planted "
              f"foreign entries, calculate_index at 7 indices x positive/negative x Indicator/Hexital (+ default index)")
+    for key in [k for k in ("EMA", "RSI", "MACD", "ATR", "KC") if k in usable]:
+        check_derived_index(col, key, seed)
     pool = Pool(sorted(usable), stream("random", 40, seed=seed, with_ts=False))
     n_seq = 6000 if thorough else 700
     shrunk = check_sequences(col, rnd, pool, n_seq, 160 if thorough else 40, seed)
